@@ -852,11 +852,70 @@ def r6(ctx):
     shared.memo_invalidation(ctx, 'C13-R6', MOLECULE, 'Molecule', [FN.split('.')[-1]], what='Molecule.get_consensus')
 
 
+def _fragment_consensus_by_interpretation(ctx, f):
+    """Fragment.get_consensus run by the abstract interpreter on model mate pairs whose per-mate calls are given (mates sharing several positions, exactly one position,
+    abutting, apart; single mate): every reported position carries the arbitrated (base, quality) of the calls at that position - the higher quality, N at equal quality and
+    different bases, the only call where one mate covers it.  (ok, cases, witness) or None outside the interpreted subset"""
+    from ..consteval import module_scope, Evaluator, Instance, Unfoldable, Raised
+    try:
+        env = module_scope(ctx.ix, FRAGMENT)
+        cls = env['Fragment']
+        n = 0
+
+        def calls(start, end, base, q):
+            return {p_: (base, q, 'A') for p_ in range(start, end)}
+        layouts = [('mates share positions 140-149', (100, 150), (140, 200)), ('mates share exactly position 149', (100, 150), (149, 200)), ('mates abut at 150', (100, 150), (150, 200)),
+                   ('mates are apart', (100, 150), (170, 200)), ('R2 lies left of R1, sharing position 100', (100, 150), (60, 101)), ('R1 only', (100, 150), None)]
+        for text, m1, m2 in layouts:
+            for (b1, q1), (b2, q2) in ((('C', 30), ('T', 20)), (('C', 20), ('T', 30)), (('C', 30), ('T', 30)), (('C', 30), ('C', 10))):
+                n += 1
+                d1 = calls(m1[0], m1[1], b1, q1)
+                d2 = calls(m2[0], m2[1], b2, q2) if m2 else {}
+                R1 = Instance(attrs={'reference_start': m1[0], 'reference_end': m1[1], 'is_reverse': False, 'is_read1': True, 'is_read2': False, 'is_unmapped': False})
+                R2 = Instance(attrs={'reference_start': m2[0], 'reference_end': m2[1], 'is_reverse': True, 'is_read1': False, 'is_read2': True, 'is_unmapped': False}) if m2 else None
+                frag = Instance(cls, attrs={'reads': [R1, R2], 'R1': R1, 'R2': R2})
+
+                def hook(ev, call, env_, d1=d1, d2=d2):
+                    if last_name(dotted(call.func) or '') == 'get_consensus_dictionaries':
+                        return (dict(d1), dict(d2))
+                    return NotImplemented
+                e = dict(env)
+                e['frag'] = frag
+                got = Evaluator(e, budget=200000, call_hook=hook).ev(ast.parse('frag.get_consensus()', mode='eval').body, e)
+                want = {}
+                for p_ in set(d1) | set(d2):
+                    c1, c2 = d1.get(p_), d2.get(p_)
+                    if c1 is None or c2 is None:
+                        c = c1 or c2
+                        want[p_] = (c[0], c[1])
+                    elif c1[1] != c2[1]:
+                        c = c1 if c1[1] > c2[1] else c2
+                        want[p_] = (c[0], c[1])
+                    else:
+                        want[p_] = (c1[0], c1[1]) if c1[0] == c2[0] else ('N', 0)
+                gotn = {k_: (tuple(v_)[0], tuple(v_)[1]) if isinstance(v_, (tuple, list)) and len(v_) >= 2 else v_ for k_, v_ in dict(got).items()}
+                if gotn != want or any(len(tuple(v_)) != 2 for v_ in dict(got).values()):
+                    p0 = sorted(set(gotn) ^ set(want) or [p_ for p_ in want if gotn.get(p_) != want[p_]] or list(gotn))[0]
+                    return (False, n, {'mates': text, 'R1 calls': (b1, q1), 'R2 calls': (b2, q2), 'position': p0, 'reported': dict(got).get(p0), 'arbitrated call': want.get(p0)})
+        return (True, n, None)
+    except (Unfoldable, Raised):
+        return None
+    except Exception:
+        return None
+
+
 @rule('C13', 'C13-R7', 'what a fragment hands to the molecule tally is the arbitrated call: every value of the dictionary Fragment.get_consensus returns is the result of '
                        'pick_best_base_call (a (base, quality) pair) - a per-mate dictionary passed through as it is carries (base, quality, reference base) records, the '
                        'tally fails to unpack them and the fragment silently contributes no vote')
 def r7(ctx):
     f = ctx.fn(FRAGMENT, 'Fragment.get_consensus')
+    m = _fragment_consensus_by_interpretation(ctx, f)
+    if m is not None:
+        ctx.counters['interpreted_cases'] = ctx.counters.get('interpreted_cases', 0) + m[1]
+        ctx.emit('C13-R7', m[0], FRAGMENT, f, f'Fragment.get_consensus interpreted on {m[1]} model mate pairs (shared / single shared / abutting / separate positions x quality orders): every position carries the '
+                 'arbitrated (base, quality) pair' if m[0] else f'Fragment.get_consensus on a model mate pair: {m[2]}', key='fragment-calls-arbitrated', witness=m[2],
+                 what='Fragment.get_consensus returns un-arbitrated per-mate calls')
+        return
     env = {}
     for a in walk_no_nested(f):
         if isinstance(a, ast.Assign):
